@@ -683,6 +683,58 @@ theorem report_on_inheriting_object_wrong (source obj : Located) (off : Int)
 example : reportedAt .epytext 5 "\n Text L{x}".toList ⟨1, ⟨0, 4, false⟩⟩ ⟨2, ⟨0, 12, false⟩⟩
     ⟨.badXref, 1, 0⟩ = (1, .num 6) := by decide
 
+/-! ### moved (re-exported) objects -/
+
+/-- **report_invariant_under_move**: a re-export (`reparent`) changes neither the file nor the
+line of any report about the object — both come from what was recorded at creation. -/
+theorem report_invariant_under_move (p : Placed) (newModuleFile : Nat) (sec : Sec) (off : Int) :
+    reportPlaced (p.reparent newModuleFile) sec off = reportPlaced p sec off := rfl
+
+/-- what using the current module's file instead would print for a moved object -/
+theorem report_by_current_module_wrong (p : Placed) (f : Nat) (sec : Sec) (off : Int)
+    (h : f ≠ p.srcFile) :
+    ((p.reparent f).moduleFile, report p.obj sec off) ≠ reportPlaced (p.reparent f) sec off := by
+  intro e
+  simp only [reportPlaced, Placed.reparent, Placed.descriptionFile, Prod.mk.injEq] at e
+  exact h e.1
+
+example : reportPlaced ((⟨1, 1, ⟨5, 3, false⟩⟩ : Placed).reparent 2) .docstring 2 = (1, .num 7) := by decide
+
+/-! ### reStructuredText fields through the three callers of `_add_field` -/
+
+/-- plain fields, bullet entries and definition-list entries of consolidated fields all get the
+0-based line of their first line: each caller passes docutils' 1-based line, `_add_field` takes 1 off -/
+theorem consolidated_field_line_correct (c : FieldCaller) (i : Int) :
+    rstFieldLineno docutilsBase c i = i := by
+  cases c <;> simp [rstFieldLineno, addFieldLineno, callerLine, docutilsBase]
+
+/-- hence a bad parameter documented by such an entry is reported on the entry's first line
+(under the layout hypothesis) -/
+theorem reported_line_correct_consolidated_partial (c : FieldCaller) (sl : Nat) (doc : List Char)
+    (ln : Int) (im : Bool) (raw : Nat) (hs : 0 < sl) (hl : noOverIndent doc = true)
+    (ht : hasText doc = true) :
+    report (docObj sl doc ln im) .docstring
+      (rstFieldLineno docutilsBase c ((raw : Int) - (dropped doc : Nat))) = .num ((sl : Int) + raw) := by
+  rw [consolidated_field_line_correct, report_docstring _ _ _ (Or.inl rfl) (docObj_lineno_ne sl doc ln im hs)]
+  simp only [docObj, docstring_lineno_correct_partial sl doc hl ht]
+  congr 1
+  push_cast
+  omega
+
+/-- a cross-reference in a definition-list *classifier* always gets offset 0: it is reported on the
+docstring's first line, wherever the entry is.
+Full statement wanted: reported line = `sl + raw` (the entry's line). -/
+theorem classifier_xref_on_first_line (sl : Nat) (doc : List Char) (ln : Int) (im : Bool) (hs : 0 < sl) :
+    report (docObj sl doc ln im) .xref classifierXrefOffset = .num (extractLinenum sl doc : Nat) := by
+  rw [report_docstring _ _ _ (Or.inr rfl) (docObj_lineno_ne sl doc ln im hs)]
+  simp [docObj, classifierXrefOffset, getLineno, truthy, firstParentLineno]
+
+/-- `:Parameters:` on raw line 3 with entry ``a : `T` `` on raw line 4 (physical 6): reported on 3. -/
+theorem classifier_xref_counterexample :
+    let doc := "\n    Sum.\n\n    :Parameters:\n      a : `T`\n        text\n    ".toList
+    noOverIndent doc = true ∧
+      report (docObj 2 doc 1 false) .xref classifierXrefOffset = .num 3 ∧ (2 : Int) + 4 ≠ 3 := by decide
+
 /-! ### **shift** -/
 
 /-- Moving the definition down by `k` lines (string literal on `sl + k`, whatever happens to the
